@@ -91,8 +91,8 @@ type (
 		Type  types.Type
 		Fresh int
 	}
-	TAddr   struct{ X Term }
-	TDeref  struct {
+	TAddr  struct{ X Term }
+	TDeref struct {
 		X     Term
 		Epoch int
 	}
@@ -125,16 +125,18 @@ func typeKey(t types.Type) string {
 	return types.TypeString(t, func(p *types.Package) string { return p.Name() })
 }
 
-func (t TConst) Key() string   { return "#" + t.Val.ExactString() }
-func (t TNil) Key() string     { return "nil" }
-func (t TVar) Key() string     { return fmt.Sprintf("$%s@%d", t.Obj.Name(), t.Obj.Pos()) }
-func (t TLoop) Key() string    { return fmt.Sprintf("loop%d(%s@%d)", t.ID, t.Obj.Name(), t.Obj.Pos()) }
-func (t TSel) Key() string     { return fmt.Sprintf("%s.%s!%d", key(t.X), t.Field.Name(), t.Epoch) }
-func (t TBuiltin) Key() string { return fmt.Sprintf("%s<%s>(%s)!%d", t.Name, typeKey(t.Type), tkeys(t.Args), t.Epoch) }
-func (t TConv) Key() string    { return fmt.Sprintf("conv<%s>(%s)", typeKey(t.To), key(t.X)) }
-func (t TBin) Key() string     { return fmt.Sprintf("(%s %s %s)", key(t.X), t.Op, key(t.Y)) }
-func (t TUn) Key() string      { return fmt.Sprintf("(%s%s)", t.Op, key(t.X)) }
-func (t TIndex) Key() string   { return fmt.Sprintf("%s[%s]!%d", key(t.X), key(t.I), t.Epoch) }
+func (t TConst) Key() string { return "#" + t.Val.ExactString() }
+func (t TNil) Key() string   { return "nil" }
+func (t TVar) Key() string   { return fmt.Sprintf("$%s@%d", t.Obj.Name(), t.Obj.Pos()) }
+func (t TLoop) Key() string  { return fmt.Sprintf("loop%d(%s@%d)", t.ID, t.Obj.Name(), t.Obj.Pos()) }
+func (t TSel) Key() string   { return fmt.Sprintf("%s.%s!%d", key(t.X), t.Field.Name(), t.Epoch) }
+func (t TBuiltin) Key() string {
+	return fmt.Sprintf("%s<%s>(%s)!%d", t.Name, typeKey(t.Type), tkeys(t.Args), t.Epoch)
+}
+func (t TConv) Key() string  { return fmt.Sprintf("conv<%s>(%s)", typeKey(t.To), key(t.X)) }
+func (t TBin) Key() string   { return fmt.Sprintf("(%s %s %s)", key(t.X), t.Op, key(t.Y)) }
+func (t TUn) Key() string    { return fmt.Sprintf("(%s%s)", t.Op, key(t.X)) }
+func (t TIndex) Key() string { return fmt.Sprintf("%s[%s]!%d", key(t.X), key(t.I), t.Epoch) }
 func (t TSlice) Key() string {
 	return fmt.Sprintf("%s[%s:%s:%s]!%d", key(t.X), key(t.Lo), key(t.Hi), key(t.Max), t.Epoch)
 }
@@ -179,18 +181,19 @@ type Step struct {
 }
 
 type LoopRec struct {
-	ID      int
-	Node    ast.Stmt
-	Range   *ast.RangeStmt
-	For     *ast.ForStmt
-	Over    Term // ranged collection
-	Key     types.Object
-	Value   types.Object
-	Iter    []*Path // paths through one iteration (ends: continue, break, fall, return, panic)
-	CondT   Term    // for-loop condition term at the head (nil for range)
-	Init    map[types.Object]Term
-	Post    ast.Stmt
-	HeadEnv map[types.Object]Term
+	ID        int
+	Node      ast.Stmt
+	Range     *ast.RangeStmt
+	For       *ast.ForStmt
+	Over      Term // ranged collection
+	Key       types.Object
+	Value     types.Object
+	Iter      []*Path // paths through one iteration (ends: continue, break, fall, return, panic)
+	CondT     Term    // for-loop condition term at the head (nil for range)
+	Init      map[types.Object]Term
+	Post      ast.Stmt
+	HeadEnv   map[types.Object]Term
+	HeadEpoch int
 }
 
 type Path struct {
@@ -1035,7 +1038,7 @@ func (x *SX) forStmt(v *ast.ForStmt, st *sxState) []outcome {
 		}
 		x.loopID++
 		id := x.loopID
-		rec := &LoopRec{ID: id, Node: v, For: v, Post: v.Post, Init: map[types.Object]Term{}}
+		rec := &LoopRec{ID: id, Node: v, For: v, Post: v.Post, Init: map[types.Object]Term{}, HeadEpoch: oc.st.epoch + 1}
 		inside := func(o types.Object) bool { return o.Pos() >= v.Body.Pos() && o.Pos() < v.Body.End() }
 		// remember initial values of the loop-carried variables
 		carried := x.assignedIn(v.Body)
@@ -1053,7 +1056,7 @@ func (x *SX) forStmt(v *ast.ForStmt, st *sxState) []outcome {
 			x.havoc(v.Post, head, id, inside)
 		}
 		rec.HeadEnv = copyEnv(head.env)
-		iter := &sxState{env: copyEnv(head.env), epoch: head.epoch, stack: head.stack, tsub: head.tsub}
+		iter := &sxState{env: copyEnv(head.env), epoch: head.epoch + 1, stack: head.stack, tsub: head.tsub}
 		if v.Cond != nil {
 			rec.CondT = simplify(x.eval(v.Cond, iter))
 		}
@@ -1089,7 +1092,7 @@ func (x *SX) rangeStmt(v *ast.RangeStmt, st *sxState) []outcome {
 		}
 		x.loopID++
 		id := x.loopID
-		rec := &LoopRec{ID: id, Node: v, Range: v, Over: ev.val, Init: map[types.Object]Term{}}
+		rec := &LoopRec{ID: id, Node: v, Range: v, Over: ev.val, Init: map[types.Object]Term{}, HeadEpoch: ev.st.epoch + 1}
 		inside := func(o types.Object) bool { return o.Pos() >= v.Pos() && o.Pos() < v.End() }
 		for _, o := range x.assignedIn(v.Body) {
 			if t, ok := ev.st.env[o]; ok && !inside(o) {
@@ -1105,7 +1108,7 @@ func (x *SX) rangeStmt(v *ast.RangeStmt, st *sxState) []outcome {
 			rec.Value = x.c.obj(id)
 		}
 		rec.HeadEnv = copyEnv(head.env)
-		iter := &sxState{env: copyEnv(head.env), epoch: head.epoch, stack: head.stack, tsub: head.tsub}
+		iter := &sxState{env: copyEnv(head.env), epoch: head.epoch + 1, stack: head.stack, tsub: head.tsub}
 		if rec.Key != nil {
 			iter.env[rec.Key] = TVar{rec.Key}
 		}
